@@ -1,3 +1,203 @@
 import Nv.OracleIO
-/-! oracle_c10 — stub (model not built yet): answers `bad-op` to every line. -/
-def main : IO Unit := Nv.oracleMain (fun (_ : Unit) _ => ((), "bad-op")) ()
+import Nv.Model.C10
+import Nv.Gen.C10
+/-!
+oracle_c10 — line protocol (one result line per input line; the configuration is `Nv.Gen.C10.cfg`).
+
+initialising lines (first line of every script):
+  `new`                         empty BufferX                          → `ok len=0`
+  `load <hex>`                  NewReadableBufferX(bytes)              → `ok len=<n>`
+  `tload <k> <write-op …>`      first k bytes of what the write emits  → `ok len=<n> full=<total>`
+  `sload <eager:0|1> <chunks>`  ReaderX over a chunked io.Reader; chunks = `hex,hex,…` (`-` empty chunk, `.` none) → `ok left=<n>`
+writes (buffer):  `wbool 0|1` `wu8 n` `wu16 n` `wi16 n` `wu32 n` `wi32 n` `wu64 n` `wi64 n` `wf64 <16 hex>` `wvu64 n` `wvi64 n`
+                  `wvu32 n` `wvi32 n` `wstr <hex>` `wlstr <limit> <hex>` `wraw <hex>`   → `ok len=<n>` | `err:sizeLimit len=<n>`
+reads (buffer or stream): `rbool` `ru8` `ru16` `ri16` `ru32` `ri32` `ru64` `ri64` `rf64` `rstr` `rlstr <limit>` `read <n>` `readn <n>` `zreadn <n>`
+                  and, buffer only, `rvu64` `rvi64` `rvu32` `rvi32`          → `v=<value> len|left=<n>` | `err:<e> len|left=<n>`
+other (buffer):   `rewrite <pos> <hex>` `rewriteu32 <pos> <v>` → `ok bytes=<hex>` | `panic` ; `bytes` ; `len` ; `reset`
+hex = lower-case pairs, `-` for the empty string. Counts are limited to ±2^20. Stream `rstr`/`rlstr` whose pending
+length field exceeds 2^24 is answered `guard:huge` without executing (the real code would allocate that much).
+-/
+open Nv Nv.C10
+
+inductive St
+  | none
+  | buf (bs : Bytes)
+  | stream (s : Src)
+
+def parseDec (s : String) : Option Nat :=
+  let cs := s.toList
+  if cs.isEmpty || cs.length > 20 || !cs.all Char.isDigit then none
+  else some (cs.foldl (fun a c => a * 10 + (c.toNat - 48)) 0)
+
+def parseSigned (s : String) : Option Int :=
+  match s.toList with
+  | '-' :: rest => (parseDec (String.ofList rest)).map (fun n => -(n : Int))
+  | _ => (parseDec s).map (fun n => (n : Int))
+
+def hexDigit (c : Char) : Option Nat :=
+  if '0' ≤ c ∧ c ≤ '9' then some (c.toNat - 48)
+  else if 'a' ≤ c ∧ c ≤ 'f' then some (c.toNat - 87)
+  else none
+
+def parseHexL : List Char → Option Bytes
+  | [] => some []
+  | [_] => none
+  | a :: b :: rest => do
+    let x ← hexDigit a
+    let y ← hexDigit b
+    let r ← parseHexL rest
+    pure (UInt8.ofNat (x * 16 + y) :: r)
+
+def parseHex (s : String) : Option Bytes :=
+  if s == "-" then some [] else if s.isEmpty then none else parseHexL s.toList
+
+def hexChar (n : Nat) : Char := if n < 10 then Char.ofNat (48 + n) else Char.ofNat (87 + n)
+
+def showHex (bs : Bytes) : String :=
+  if bs.isEmpty then "-" else String.ofList (bs.flatMap (fun b => [hexChar (b.toNat / 16), hexChar (b.toNat % 16)]))
+
+def parseChunks (s : String) : Option (List Bytes) :=
+  if s == "." then some [] else (s.splitOn ",").mapM parseHex
+
+def inRange (lo hi : Int) (x : Int) : Option Int := if lo ≤ x ∧ x ≤ hi then some x else none
+
+def parseU (bits : Nat) (s : String) : Option Nat := do
+  let n ← parseDec s
+  if n < 2 ^ bits then some n else none
+
+def parseI (bits : Nat) (s : String) : Option Int := do
+  let n ← parseSigned s
+  inRange (-(2 ^ (bits - 1) : Int)) (2 ^ (bits - 1) - 1) n
+
+def parseCount (s : String) : Option Int := do
+  let n ← parseSigned s
+  inRange (-1048576) 1048576 n
+
+def parseF64 (s : String) : Option UInt64 :=
+  if s.length ≠ 16 then none else (parseHexL s.toList).map (fun bs => UInt64.ofNat (bs.foldl (fun a b => a * 256 + b.toNat) 0))
+
+def showF64 (x : UInt64) : String :=
+  String.ofList ((List.range 16).map (fun i => hexChar ((x.toNat / 16 ^ (15 - i)) % 16)))
+
+def parseWrite : List String → Option Val
+  | ["wbool", "0"] => some (.bool false)
+  | ["wbool", "1"] => some (.bool true)
+  | ["wu8", n] => (parseU 8 n).map (fun x => .u8 (UInt8.ofNat x))
+  | ["wu16", n] => (parseU 16 n).map (fun x => .u16 (UInt16.ofNat x))
+  | ["wi16", n] => (parseI 16 n).map (fun x => .i16 (Int16.ofInt x))
+  | ["wu32", n] => (parseU 32 n).map (fun x => .u32 (UInt32.ofNat x))
+  | ["wi32", n] => (parseI 32 n).map (fun x => .i32 (Int32.ofInt x))
+  | ["wu64", n] => (parseU 64 n).map (fun x => .u64 (UInt64.ofNat x))
+  | ["wi64", n] => (parseI 64 n).map (fun x => .i64 (Int64.ofInt x))
+  | ["wf64", h] => (parseF64 h).map .f64
+  | ["wvu64", n] => (parseU 64 n).map (fun x => .varU64 (UInt64.ofNat x))
+  | ["wvi64", n] => (parseI 64 n).map (fun x => .varI64 (Int64.ofInt x))
+  | ["wvu32", n] => (parseU 32 n).map (fun x => .varU32 (UInt32.ofNat x))
+  | ["wvi32", n] => (parseI 32 n).map (fun x => .varI32 (Int32.ofInt x))
+  | ["wstr", h] => (parseHex h).map .str
+  | ["wlstr", l, h] => do
+    let l ← parseU 32 l
+    let s ← parseHex h
+    pure (.lstr (UInt32.ofNat l) s)
+  | ["wraw", h] => (parseHex h).map .raw
+  | _ => none
+
+/-- (type, offered by ReaderX too) -/
+def parseRead : List String → Option Ty
+  | ["rbool"] => some .bool | ["ru8"] => some .u8 | ["ru16"] => some .u16 | ["ri16"] => some .i16
+  | ["ru32"] => some .u32 | ["ri32"] => some .i32 | ["ru64"] => some .u64 | ["ri64"] => some .i64
+  | ["rf64"] => some .f64 | ["rvu64"] => some .varU64 | ["rvi64"] => some .varI64
+  | ["rvu32"] => some .varU32 | ["rvi32"] => some .varI32 | ["rstr"] => some .str
+  | ["rlstr", l] => (parseU 32 l).map (fun l => .lstr (UInt32.ofNat l))
+  | ["read", n] => do
+    let n ← parseCount n
+    if n < 0 then none else some (.read n.toNat)
+  | ["readn", n] => (parseCount n).map .readN
+  | ["zreadn", n] => (parseCount n).map .zreadN
+  | _ => none
+
+def showErr : Err → String
+  | .eof => "eof" | .empty => "empty" | .wrongNum => "wrongNum" | .sizeLimit => "sizeLimit"
+  | .unexpectedEOF => "unexpectedEOF" | .overflow => "overflow"
+
+def showVal : Val → String
+  | .bool b => if b then "true" else "false"
+  | .u8 x => toString x.toNat | .u16 x => toString x.toNat | .i16 x => toString x.toInt
+  | .u32 x => toString x.toNat | .i32 x => toString x.toInt
+  | .u64 x => toString x.toNat | .i64 x => toString x.toInt
+  | .f64 x => showF64 x
+  | .varU64 x => toString x.toNat | .varI64 x => toString x.toInt
+  | .varU32 x => toString x.toNat | .varI32 x => toString x.toInt
+  | .str s => showHex s | .lstr _ s => showHex s | .raw p => showHex p
+
+def showOut (o : Out Val) : String :=
+  match o with
+  | .ok v => "v=" ++ showVal v
+  | .err e => "err:" ++ showErr e
+
+def isStrTy : Ty → Bool
+  | .str => true
+  | .lstr _ => true
+  | _ => false
+
+def step (st : St) (line : String) : St × String :=
+  let ws := words line
+  match ws with
+  | ["new"] => (.buf [], "ok len=0")
+  | ["load", h] =>
+    match parseHex h with
+    | some bs => (.buf bs, s!"ok len={bs.length}")
+    | none => (.none, "bad-op")
+  | "tload" :: k :: w =>
+    match parseDec k, parseWrite w with
+    | some k, some v =>
+      if k > 1048576 then (.none, "bad-op")
+      else if writeOk v then
+        let e := enc v
+        (.buf (e.take k), s!"ok len={(e.take k).length} full={e.length}")
+      else (.buf [], "err:sizeLimit len=0 full=0")
+    | _, _ => (.none, "bad-op")
+  | ["sload", e, cs] =>
+    match (if e == "0" then some false else if e == "1" then some true else none), parseChunks cs with
+    | some e, some cs => let s : Src := ⟨e, cs⟩; (.stream s, s!"ok left={s.flat.length}")
+    | _, _ => (.none, "bad-op")
+  | _ =>
+    match st with
+    | .none => (st, "bad-op")
+    | .buf bs =>
+      match parseWrite ws with
+      | some v =>
+        let r := write v bs
+        (.buf r.2, (match r.1 with | .ok _ => "ok" | .err e => "err:" ++ showErr e) ++ s!" len={r.2.length}")
+      | none =>
+        match parseRead ws with
+        | some ty => let r := decBuf ty bs; (.buf r.2, showOut r.1 ++ s!" len={r.2.length}")
+        | none =>
+          match ws with
+          | ["bytes"] => (st, "bytes=" ++ showHex bs)
+          | ["len"] => (st, s!"len={bs.length}")
+          | ["reset"] => (.buf [], "ok len=0")
+          | ["rewrite", p, h] =>
+            match parseCount p, parseHex h with
+            | some p, some h =>
+              match rewrite p h bs with
+              | some bs' => (.buf bs', "ok bytes=" ++ showHex bs')
+              | none => (st, "panic")
+            | _, _ => (st, "bad-op")
+          | ["rewriteu32", p, v] =>
+            match parseCount p, parseU 32 v with
+            | some p, some v =>
+              match rewriteU32 p (UInt32.ofNat v) bs with
+              | some bs' => (.buf bs', "ok bytes=" ++ showHex bs')
+              | none => (st, "panic")
+            | _, _ => (st, "bad-op")
+          | _ => (st, "bad-op")
+    | .stream s =>
+      match parseRead ws with
+      | some ty =>
+        if !ty.streamable then (st, "bad-op")
+        else if isStrTy ty && decide (s.flat.length ≥ 4) && decide (leVal (s.flat.take 4) > 16777216) then (st, "guard:huge")
+        else let r := decStream Nv.Gen.C10.cfg ty s; (.stream r.2, showOut r.1 ++ s!" left={r.2.flat.length}")
+      | none => (st, "bad-op")
+
+def main : IO Unit := oracleMain step St.none
